@@ -230,6 +230,9 @@ func gbCheckText(text string) string {
 			// qualifier start lines are fine; continuation lines must not start with '/'
 			continue
 		}
+		if strings.HasSuffix(l, " ") {
+			return "a line ends in a blank: " + l
+		}
 		if strings.Contains(l, "\"\"") {
 			return "doubled quote"
 		}
